@@ -77,6 +77,10 @@ def check_C09(tier, seed, res, replay=None):
     res.count_cases(cases, nt_pair)
     res.add_samples([c for c in cases if nt_pair(c)][:3])
     run_events(res, rd, "c09", cases, "TraceFA.tla", timeout_ms=2000)
+    import cli_arm
+    pick = [c for c in cases if nt_pair(c)]
+    rng.shuffle(pick)
+    cli_arm.judge(res, rd, "faincl", cli_arm.faincl_events(pick[:9000 if tier == "thorough" else 1800], rd), "TraceFA.tla")
     # agreement arm: many more random pairs generated in the driver; disagreements between the 3 selections judged by TLC
     nb, per = (800, 20000) if tier == "thorough" else (64, 10000)
     batches = [{"id": ["faagree", i], "op": "faagree", "seed": seed * 6151 + i, "count": per, "tmo": 240000} for i in range(nb)]
